@@ -31,6 +31,7 @@ class FlowGraph:
         self.compares = []       # (Compare node, Func)
         self.calls = []          # (Call node, Func)
         self.subscript_loads = []
+        self.ctor_edges = {}     # argument expression node -> constructor call expression node
         self._props_by_name = {}
         self._fields_by_name = {}
         for c in prog.classes.values():
@@ -54,8 +55,9 @@ class FlowGraph:
             self.succ[a][b] = label
         self.pred.setdefault(b, {})[a] = self.succ[a][b]
 
-    def flows(self, sources, labels=("copy", "derive"), stop=None):
-        """Forward closure.  `stop(node)` -> True cuts propagation through that node."""
+    def flows(self, sources, labels=("copy", "derive"), stop=None, through_ctors=False):
+        """Forward closure.  `stop(node)` -> True cuts propagation through that node.
+        through_ctors: an object constructed from a tainted argument is tainted."""
         seen, stack = set(), list(sources)
         while stack:
             n = stack.pop()
@@ -67,6 +69,10 @@ class FlowGraph:
             for m, lab in self.succ.get(n, {}).items():
                 if lab in labels and m not in seen:
                     stack.append(m)
+            if through_ctors:
+                for m in self.ctor_edges.get(n, ()):
+                    if m not in seen:
+                        stack.append(m)
         return seen
 
     def back(self, sinks, labels=("copy", "derive")):
@@ -435,6 +441,10 @@ class FlowGraph:
                                 self.edge(node, self.var(t, pn), "derive")
                 if t.cls is not None and not t.is_static and t.params:
                     if kind == "ctor":
+                        for _, node in args:
+                            self.ctor_edges.setdefault(node, set()).add(n)
+                        for _, node in kws:
+                            self.ctor_edges.setdefault(node, set()).add(n)
                         self.edge(n, self.var(t, t.params[0]), "copy")
                     elif recv is not None:
                         self.edge(recv, self.var(t, t.params[0]), "copy")
